@@ -83,7 +83,7 @@ pub fn replay(case: &Value) -> Vec<Violation> {
 pub fn depth_states_as_scenarios(_srcs: &SrcCache, depth: usize, budget: &Budget) -> Vec<Scenario> {
     let dummy = Report::new("C03-scenarios", "quick", "model_checking");
     let collected: Mutex<Vec<HState>> = Mutex::new(Vec::new());
-    let sub = Budget::new(((1.0 - budget.frac()) * 0.3 * 1200.0).max(30.0) as u64);
+    let sub = Budget::new(if depth >= 2 { 360 } else { 20 });
     let noop = |_: &Transition| Vec::new();
     hist::explore(&dummy, &sub, "C03", depth, false, false, false, &noop, None, Some(&collected));
     let mut out = Vec::new();
